@@ -28,3 +28,16 @@ pub fn base_graph_counts<K: Kmer>(reads: &[Vec<u8>], stranded: bool, min_count: 
     let spec = SimpleCompress::new(|a: u16, b: &u16| a.saturating_add(*b));
     compress_kmers_with_hash(stranded, &spec, &t)
 }
+
+/// Graph for a spec: through the pipeline, or (free-form node set) through `BaseGraph::add`.
+pub fn base_graph_for<K: Kmer>(spec: &crate::spec::GraphSpec) -> BaseGraph<K, u16> {
+    if spec.direct_nodes.is_empty() {
+        base_graph_counts::<K>(&spec.reads, spec.stranded, spec.min_count)
+    } else {
+        let mut b: BaseGraph<K, u16> = BaseGraph::new(spec.stranded);
+        for (i, (seq, exts)) in spec.direct_nodes.iter().enumerate() {
+            b.add(seq.iter(), Exts::new(*exts), (i % 65535) as u16);
+        }
+        b
+    }
+}
